@@ -4,7 +4,7 @@
 (* it and appends the case with its expected results to vectors.ndjson.        *)
 EXTENDS Names, GenBase
 
-CONSTANTS Mode,        \* "strings" | "shapes" | "octets" | "names" | "texts" | "pairs"
+CONSTANTS Mode,        \* "strings" | "shapes" | "octets" | "names" | "texts" | "pairs" | "octpairs"
           N,           \* size bound of the universe (meaning depends on Mode)
           Shard, NShards
 
@@ -35,6 +35,8 @@ NameOfShape(sh, o) == [i \in 1..Len(sh) |-> Fill(sh[i], o)]
 OctetName(o, pos) == << [i \in 1..3 |-> IF i = pos THEN o ELSE 120], <<121>> >>
 
 \* Mode "names": all names over the C19 octet alphabet with at most N octets+labels in total
+\* Mode "octpairs" (C19): every octet c against the octet that differs from it in bit 0x20 only
+Flip20(c) == IF (c \div 32) % 2 = 1 THEN c - 32 ELSE c + 32
 NAlpha == {97, 65, 48, 46, 92, 0, 200}
 LabelsOfSize(k) == [1..k -> NAlpha]
 RECURSIVE NamesOfSize(_)
@@ -46,10 +48,11 @@ NamesUpTo(k) == UNION { NamesOfSize(j) : j \in 0..k }
 -----------------------------------------------------------------------------
 Init ==
   \/ Mode = "strings" /\ v \in UNION { [1..k -> 1..Len(Sym)] : k \in 0..N } /\ InShard(v)
-  \/ Mode = "shapes"  /\ \E sh \in ShapesUpTo(6), o \in {97, 46, 200} : v = <<o>> \o sh /\ InShard(sh)
+  \/ Mode = "shapes"  /\ \E sh \in ShapesUpTo(6), o \in {97, 46, 200, 92} : v = <<o>> \o sh /\ InShard(sh)
   \/ Mode = "octets"  /\ \E o \in 0..255, pos \in 1..3 : v = <<o, pos>> /\ (o % NShards = Shard)
   \/ Mode = "names"   /\ v \in NamesUpTo(N) /\ (Len(v) = 0 \/ InShard(v[1]))
   \/ Mode = "texts"   /\ v \in UNION { [1..k -> 1..Len(TSym)] : k \in 1..N } /\ InShard(v) /\ Parse(TextOf(v)).st = "ok"
+  \/ Mode = "octpairs" /\ \E c \in 0..255 : v = << <<<<120, c, 121>>, <<122>>>>, <<<<120, Flip20(c), 121>>, <<122>>>> >> /\ (c % NShards = Shard)
   \/ Mode = "pairs"   /\ \E a \in NamesUpTo(N), b \in NamesUpTo(N) : v = <<a, b>> /\ (Len(a) = 0 \/ InShard(a[1]))
 Next == UNCHANGED v
 
@@ -98,5 +101,6 @@ Out ==
     [] Mode = "octets"  -> Emit(NameVector(OctetName(v[1], v[2])))
     [] Mode = "names"   -> Emit(HelperVector(v))
     [] Mode = "texts"   -> Emit(HelperVectorT(TextOf(v)))
+    [] Mode = "octpairs" -> Emit(PairVector(v[1], v[2]))
     [] Mode = "pairs"   -> Emit(PairVector(v[1], v[2]))
 =============================================================================
